@@ -222,6 +222,7 @@ struct Conn {
     s_flushed: bool,
     c_read: Vec<u8>,
     sends: u32,
+    out_tail: usize,
     /// handshake flights the client has produced so far (ClientHello = 1, final flight = 2)
     flights: u32,
 }
@@ -334,10 +335,13 @@ async fn run_accept(cfg: &Config, ch: &mut Chooser<Action>, ctx: &mut RunCtx) ->
                     en.push((Action::PollReady(s), 2));
                 }
             }
-            en.push((Action::Advance(1), cfg.w_advance));
+            // The clock is only ever sampled at multiples of 5 ms while every deadline is
+            // congruent 2 mod 5 (timeouts are 5k+2 ms): no observation falls within a millisecond
+            // of a timer deadline, where tokio's tick rounding would decide the outcome.
+            en.push((Action::Advance(5), cfg.w_advance));
             en.push((Action::Advance(50), cfg.w_advance));
-            en.push((Action::Advance(cfg.timeout_ms / 2 + 1), cfg.w_advance));
-            en.push((Action::Advance(cfg.timeout_ms), cfg.w_advance));
+            en.push((Action::Advance((cfg.timeout_ms / 10) * 5), cfg.w_advance));
+            en.push((Action::Advance(cfg.timeout_ms + 3), cfg.w_advance));
         }
         for (i, c) in conns.iter().enumerate() {
             if c.fut.is_some() && (!c.parked || c.task.woken()) {
@@ -355,6 +359,11 @@ async fn run_accept(cfg: &Config, ch: &mut Chooser<Action>, ctx: &mut RunCtx) ->
                     en.push((Action::Disconnect(i), cfg.w_fault));
                     en.push((Action::Reset(i), cfg.w_fault));
                 }
+            }
+            // once a call has failed (or was cancelled) its client is of no further interest
+            let live = c.fut.is_some() || c.stream.is_some();
+            if !live {
+                continue;
             }
             if !c.outbox.is_empty() && !c.cut {
                 for f in 0..3u8 {
@@ -415,7 +424,7 @@ async fn run_accept(cfg: &Config, ch: &mut Chooser<Action>, ctx: &mut RunCtx) ->
             if pick.is_none() && conns.iter().any(|c| c.fut.is_some()) {
                 let next_deadline = conns.iter().filter(|c| c.fut.is_some()).map(|c| c.t_call + cfg.timeout_ms).min().unwrap();
                 if now <= next_deadline + 1 {
-                    pick = Some(Action::Advance(next_deadline + 2 - now));
+                    pick = Some(Action::Advance(next_deadline + 3 - now));
                 } else {
                     let i = conns.iter().position(|c| c.fut.is_some() && c.t_call + cfg.timeout_ms == next_deadline).unwrap();
                     return Some(
@@ -468,7 +477,10 @@ async fn run_accept(cfg: &Config, ch: &mut Chooser<Action>, ctx: &mut RunCtx) ->
         match a {
             Action::Call(s) => {
                 let c2s = Pipe::new(1 << 20);
-                let s2c = Pipe::new(cfg.pipe_cap);
+                // Unbounded while the handshake runs (flight lengths vary by a few bytes from one
+                // handshake to the next, so a bounded pipe would make progress length-dependent);
+                // the configured capacity applies to the payload phase.
+                let s2c = Pipe::new(1 << 20);
                 let half = Half { rx: c2s.clone(), tx: s2c.clone(), shutdown: false };
                 let mut client = rustls::ClientConnection::new(ccfg.clone(), ServerName::try_from(GOOD_NAME).unwrap()).unwrap();
                 client.set_buffer_limit(None);
@@ -497,6 +509,7 @@ async fn run_accept(cfg: &Config, ch: &mut Chooser<Action>, ctx: &mut RunCtx) ->
                     s_flushed: false,
                     c_read: Vec::new(),
                     sends: 0,
+                    out_tail: 0,
                     flights: 0,
                 };
                 c.pump_client_out();
@@ -591,6 +604,7 @@ async fn run_accept(cfg: &Config, ch: &mut Chooser<Action>, ctx: &mut RunCtx) ->
                             }
                             if let Ok(s) = res {
                                 c.stream = Some(s);
+                                c.s2c.borrow_mut().capacity = cfg.pipe_cap;
                             }
                         }
                     }
@@ -613,11 +627,7 @@ async fn run_accept(cfg: &Config, ch: &mut Chooser<Action>, ctx: &mut RunCtx) ->
             }
             Action::ClientSend(i, frac) => {
                 let c = &mut conns[i];
-                let n = match frac {
-                    0 => c.outbox.len(),
-                    1 => (c.outbox.len() / 2).max(1),
-                    _ => 1,
-                };
+                let n = duplex::delivery_len(&c.outbox, frac, &mut c.out_tail);
                 let data: Vec<u8> = c.outbox.drain(..n).collect();
                 c.c2s.borrow_mut().push(&data);
                 c.sends += 1;
@@ -811,7 +821,7 @@ impl Engine for TlsSim {
             kind: if rng.chance(1, 2) { Kind::Rustls } else { Kind::Openssl },
             tls12: rng.chance(1, 3),
             limit: rng.range(1, 3) as usize,
-            timeout_ms: *rng.pick(&[100, 250, 1000, 3000, 5000]),
+            timeout_ms: *rng.pick(&[102, 252, 1002, 3002, 5002]),
             use_clone: rng.chance(1, 2),
             services: rng.range(1, 2) as usize,
             pipe_cap: *rng.pick(&[512, 1024, 4096, 16384, 1 << 20]),
